@@ -51,6 +51,7 @@ class Contract:
         self.max_paths = 4000
         self.native = None  # replay adapter: fn(model_inputs) -> (callable, args, kwargs)
         self.model_only = False  # contract used only at call sites (function body out of reach)
+        self.apply_fn = None  # custom call-site semantics fn(it, contract, fi, args, kwargs) -> V for contracts whose post is a spec function of the arguments
         self.callers_inline = False  # verified on its own, but callers inline the body (contract talks about ghosts of its own harness)
         self.modular_only_reason = None
         self.variants = None  # list of (variant label, dict of param-type overrides)
